@@ -1,18 +1,37 @@
 (* Properties/C19.v - Settings are scoped correctly and cloned clients are independent.
    Only statements, `exact`, and Print Assumptions.
-   Model: Model/Settings.v (reference heap + value model), Gen/CloneTable.v (per-field treatment
-   in Client.Clone / Transport.Clone, regenerated from the Go source). *)
+
+   Model: Model/Settings.v - `run grow tbl p init_state` is the REFERENCE-HEAP model (backing arrays with
+   Go's append, maps, *retryOption records, boxes for cookie jars / *DumpOptions / *tls.Config; Clone
+   field by field with the per-field treatment `tbl`); `view st id` reads an object through its
+   references; `probe` / `exec` describe the request a client emits.  It is the model Model/C19Run.v
+   evaluates on every program the harness runs on the real library, with tbl := gen_tbl regenerated
+   from Client.Clone / Transport.Clone / Options.Clone by gosync and grow := go_grow8.
+   `vrun` is the value model (every object a plain value, Clone = copy).
+   op_nojar excludes only SetCookieJar without a factory (the documented shared jar);
+   op_api excludes appending to the wrapper lists behind WrapRoundTrip's back (no API does). *)
 From Coq Require Import List Arith Bool.
-From ReqV Require Import Model.Settings Gen.CloneTable Proofs.SettingsHeap Proofs.SettingsValue Proofs.C19Top.
+From ReqV Require Import Model.Settings Gen.CloneTable Proofs.SettingsHeap Proofs.SettingsValue Proofs.SettingsSim Proofs.C19Top.
 Import ListNotations.
 
-(* the Clone code, as read from the source by gosync, deep-copies every reference field the model tracks *)
+(* the Clone code, as read from the source by gosync, deep-copies every reference the model tracks,
+   carries every value-typed setting over, re-makes the factory jar and re-wires the cloned Dumper *)
 Theorem C19_clone_table_is_deep : gen_tbl = deep_tbl.
 Proof. exact gen_tbl_deep. Qed.
 Print Assumptions C19_clone_table_is_deep.
 
-(* Go's append through one slice writes only cells owned by that slice's owner: every foreign cell
-   is framed, the result reads as old ++ new, for every growth function *)
+(* every field of Transport / http2 Transport is named by Transport.Clone or is connection state;
+   every reference-typed field of Client is deep-copied by Client.Clone; Options has exactly three
+   reference-typed fields - a field added to one of the structs breaks this proof *)
+Theorem C19_clone_field_inventory :
+  covered (gen_transport_clone_fields ++ transport_runtime_fields) gen_transport_fields = true /\
+  covered (gen_t2_clone_fields ++ t2_unset_fields) gen_t2_fields = true /\
+  covered (gen_client_deep_fields ++ client_ref_special) gen_client_ref_fields = true /\
+  gen_options_ref_fields = options_ref_fields.
+Proof. exact clone_field_inventory. Qed.
+Print Assumptions C19_clone_field_inventory.
+
+(* Go's append through one slice writes only cells owned by that slice's owner *)
 Theorem C19_append_frames_foreign_cells : forall grow A oA t s vs A' s',
   length oA = length A -> sl_ok A oA t s -> sl_append grow A s vs = (A', s') ->
   exists e, length (oA ++ e) = length A' /\ sl_ok A' (oA ++ e) t s' /\
@@ -20,51 +39,97 @@ Theorem C19_append_frames_foreign_cells : forall grow A oA t s vs A' s',
 Proof. exact sl_append_spec. Qed.
 Print Assumptions C19_append_frames_foreign_cells.
 
-(* request scope: a request-level setter changes that request and no other object *)
-Theorem C19_request_scope_value : forall vs r s id,
-  id <> OR r -> vget id (vstep vs (OSet (OR r) s)) = vget id vs.
-Proof. exact v_request_scope. Qed.
-Print Assumptions C19_request_scope_value.
+(* REFINEMENT: on every program of API calls, for every append growth function, every object of the
+   reference-heap model reads exactly as in the value model *)
+Theorem C19_heap_refines_value : forall grow p, Forall op_nojar p ->
+  abs_state (run grow deep_tbl p init_state) = vrun p [].
+Proof. exact heap_refines_value. Qed.
+Print Assumptions C19_heap_refines_value.
 
-(* client scope: a client-level setter is seen by every later Exec of that client ... *)
-Theorem C19_client_scope_later_requests_value : forall vs c s vc,
-  vget (OC c) vs = Some vc ->
-  vprobe (vstep vs (OSet (OC c) s)) c = Some (describe (vapply vc s) (vnew_req c (vapply vc s))).
-Proof. exact v_client_scope_probe. Qed.
-Print Assumptions C19_client_scope_later_requests_value.
+(* request scope: a request-level setter changes that request - as the setter prescribes - and no
+   other object: not its client, not another request, not another client *)
+Theorem C19_request_scope : forall grow p r s id,
+  Forall op_nojar (p ++ [OSet (OR r) s]) -> id <> OR r ->
+  view (run grow gen_tbl (p ++ [OSet (OR r) s]) init_state) id = view (run grow gen_tbl p init_state) id.
+Proof. exact h_request_scope. Qed.
+Print Assumptions C19_request_scope.
 
-Theorem C19_client_scope_existing_requests_value : forall vs c s vc r vr,
-  vget (OC c) vs = Some vc -> vget (OR r) vs = Some vr -> v_par vr = c ->
-  vexec (vstep vs (OSet (OC c) s)) r = Some (describe (vapply vc s) vr).
-Proof. exact v_client_scope_exec. Qed.
-Print Assumptions C19_client_scope_existing_requests_value.
+Theorem C19_request_scope_self : forall grow p r s vr,
+  Forall op_nojar (p ++ [OSet (OR r) s]) -> view (run grow gen_tbl p init_state) (OR r) = Some vr ->
+  view (run grow gen_tbl (p ++ [OSet (OR r) s]) init_state) (OR r) = Some (vapply vr s).
+Proof. exact h_request_scope_self. Qed.
+Print Assumptions C19_request_scope_self.
+
+(* client scope: a client-level setter is seen by every later request of that client - fresh ... *)
+Theorem C19_client_scope_later_requests : forall grow p c s vc,
+  Forall op_nojar (p ++ [OSet (OC c) s]) -> view (run grow gen_tbl p init_state) (OC c) = Some vc ->
+  probe (run grow gen_tbl (p ++ [OSet (OC c) s]) init_state) c
+    = Some (describe (vapply vc s) (vnew_req c (vapply vc s))).
+Proof. exact h_client_scope_probe. Qed.
+Print Assumptions C19_client_scope_later_requests.
+
+(* ... or created before the change and executed after it (its own settings unchanged) *)
+Theorem C19_client_scope_existing_requests : forall grow p c s vc r vr,
+  Forall op_nojar (p ++ [OSet (OC c) s]) ->
+  view (run grow gen_tbl p init_state) (OC c) = Some vc -> view (run grow gen_tbl p init_state) (OR r) = Some vr ->
+  v_par vr = c ->
+  exec (run grow gen_tbl (p ++ [OSet (OC c) s]) init_state) r = Some (describe (vapply vc s) vr).
+Proof. exact h_client_scope_exec. Qed.
+Print Assumptions C19_client_scope_existing_requests.
 
 (* ... and by no other object *)
-Theorem C19_client_scope_nobody_else_value : forall vs c s id,
-  id <> OC c -> vget id (vstep vs (OSet (OC c) s)) = vget id vs.
-Proof. exact v_client_scope_others. Qed.
-Print Assumptions C19_client_scope_nobody_else_value.
+Theorem C19_client_scope_nobody_else : forall grow p c s id,
+  Forall op_nojar (p ++ [OSet (OC c) s]) -> id <> OC c ->
+  view (run grow gen_tbl (p ++ [OSet (OC c) s]) init_state) id = view (run grow gen_tbl p init_state) id.
+Proof. exact h_client_scope_others. Qed.
+Print Assumptions C19_client_scope_nobody_else.
 
-(* non-interference for every program: what the objects in R look like at the end is computed by
-   the backwards slice alone - every operation on an object that is neither in R nor an ancestor
-   (before cloning) of one in R can be erased *)
+(* right after Clone the clone describes EVERY request exactly as the original does (but for a jar
+   made by a factory, which starts empty), and Clone changes no other object *)
+Theorem C19_clone_initially_equal : forall grow p src dst vc,
+  Forall op_api p -> Forall op_nojar p -> view (run grow gen_tbl p init_state) (OC src) = Some vc ->
+  exists vk, view (run grow gen_tbl (p ++ [OClone src dst]) init_state) (OC dst) = Some vk /\
+    (forall r, describe vk r = describe (vset_jar vc (if v_fact vc then Some [] else v_jar vc) (v_fact vc)) r) /\
+    (forall id, id <> OC dst ->
+       view (run grow gen_tbl (p ++ [OClone src dst]) init_state) id = view (run grow gen_tbl p init_state) id).
+Proof. exact h_clone_initially_equal. Qed.
+Print Assumptions C19_clone_initially_equal.
+
+(* non-interference for every program (any interleaving of setters, clones incl. clone of clone,
+   R() and executions on any clients): what the objects in R look like at the end is computed by the
+   backwards slice alone - every operation on an object that is neither in R nor an ancestor (before
+   cloning) of one in R can be erased *)
+Theorem C19_clone_noninterference : forall grow p R,
+  Forall op_nojar p -> forall id, In id R ->
+  view (run grow gen_tbl p init_state) id = view (run grow gen_tbl (fst (pslice p R)) init_state) id.
+Proof. exact h_noninterference. Qed.
+Print Assumptions C19_clone_noninterference.
+
+(* the same over arbitrary initial value states *)
 Theorem C19_clone_noninterference_value : forall p R vs vs',
   (forall id, In id (snd (pslice p R)) -> vget id vs = vget id vs') ->
   forall id, In id R -> vget id (vrun p vs) = vget id (vrun (fst (pslice p R)) vs').
 Proof. exact v_noninterference. Qed.
 Print Assumptions C19_clone_noninterference_value.
 
-(* the code as pinned (wrapper slices shared by Clone) violates independence; witness kept checked *)
+(* the code as pinned violates independence (wrapper slices shared by Clone) ... *)
 Theorem C19_pinned_clone_refuted :
   exists p c, Forall op_api p /\ Forall op_nojar p /\
     probe (run go_grow8 pinned_tbl p init_state) c <> vprobe (vrun p []) c.
 Proof. exact pinned_refuted. Qed.
 Print Assumptions C19_pinned_clone_refuted.
 
+(* ... and "initially identical" (cloned Dumper not wired to the clone's dumpOptions) *)
+Theorem C19_pinned_dump_clone_refuted :
+  Forall op_api witness_dump /\ Forall op_nojar witness_dump /\
+  probe (run go_grow8 unlinked_tbl witness_dump init_state) 1 <> vprobe (vrun witness_dump []) 1.
+Proof. exact pinned_dump_refuted. Qed.
+Print Assumptions C19_pinned_dump_clone_refuted.
+
 Example C19_nonvacuous :
-  let p := [ONewClient 0; OSet (OC 0) (SWrap [1;2;3]); OClone 0 1; OSet (OC 0) (SWrap [4]);
-            OSet (OC 1) (SWrap [5]); OClone 0 2] in
-  Forall op_api p /\ Forall op_nojar p /\
-  probe (run go_grow8 deep_tbl p init_state) 2 = vprobe (vrun p []) 2 /\
-  fst (pslice p [OC 1]) = [ONewClient 0; OSet (OC 0) (SWrap [1;2;3]); OClone 0 1; OSet (OC 1) (SWrap [5])].
+  Forall op_api witness /\ Forall op_nojar witness /\
+  probe (run go_grow8 gen_tbl witness init_state) 2 = vprobe (vrun witness []) 2 /\
+  fst (pslice witness [OC 1]) = [ONewClient 0; OSet (OC 0) (SWrap [1;2;3]); OClone 0 1; OSet (OC 1) (SWrap [5])] /\
+  probe (run go_grow8 gen_tbl witness_dump init_state) 1 = vprobe (vrun witness_dump []) 1 /\
+  probe (run go_grow8 gen_tbl witness_dump init_state) 1 <> probe (run go_grow8 gen_tbl witness_dump init_state) 0.
 Proof. exact nonvacuous_witness. Qed.
